@@ -30,7 +30,7 @@ ASSUMPTIONS = [
     'objects returned by accessors are not mutated by the harness',
 ]
 ANCHORS = ['Table.copy', 'Table.filter', 'Table.transform', 'Table.subsample', 'Table._get_sparse_data']
-REQUIRED = ['noninplace_calls', 'inplace_equivalence_checked',
+REQUIRED = ['degenerate_argument_calls', 'noninplace_calls', 'inplace_equivalence_checked',
             'isolation_batteries', 'fault_injections', 'layout_csc_seen',
             'layout_unsorted_seen', 'args_tables_checked',
             'op_filter', 'op_transform', 'op_norm', 'op_pa', 'op_rankdata',
@@ -140,6 +140,54 @@ def build_call(ctx, r, spec, op, axis):
     ids = spec.ids(axis)
     args = {}
     tables = []
+    # now and then the arguments ask for nothing to change: the answer is
+    # still a table of its own
+    deg = r.random() < .15
+    if deg and op in ('filter', 'transform', 'update_ids', 'sort_order',
+                      'head', 'concat', 'align_to', 'subsample', 'partition',
+                      'collapse'):
+        ctx.count('degenerate_argument_calls')
+        args = {'degenerate': True}
+        if op == 'filter':
+            if r.random() < .5:
+                return (lambda t, ip: t.filter(list(ids), axis=axis,
+                                               inplace=ip)), args, tables
+            return (lambda t, ip: t.filter(lambda v, i, m: True, axis=axis,
+                                           inplace=ip)), args, tables
+        if op == 'transform':
+            return (lambda t, ip: t.transform(lambda v, i, m: v, axis=axis,
+                                              inplace=ip)), args, tables
+        if op == 'update_ids':
+            if r.random() < .5:
+                return (lambda t, ip: t.update_ids({}, axis=axis,
+                                                   strict=False,
+                                                   inplace=ip)), args, tables
+            return (lambda t, ip: t.update_ids({i: i for i in ids},
+                                               axis=axis, inplace=ip)), \
+                args, tables
+        if op == 'sort_order':
+            return (lambda t, ip: t.sort_order(list(ids), axis=axis)), args, \
+                tables
+        if op == 'head':
+            return (lambda t, ip: t.head(len(spec.obs_ids) + 2,
+                                         len(spec.samp_ids) + 2)), args, tables
+        if op == 'concat':
+            return (lambda t, ip: t.concat([], axis=axis)), args, tables
+        if op == 'align_to':
+            other = gen.build(ctx.biom, spec, 'dense')
+            tables.append(other)
+            ax = r.choice(['sample', 'observation', 'both', 'detect'])
+            return (lambda t, ip: t.align_to(other, axis=ax)), args, tables
+        if op == 'subsample':
+            return (lambda t, ip: t.subsample(len(ids) + 1, axis=axis,
+                                              by_id=True, seed=3)), args, \
+                tables
+        if op == 'partition':
+            return (lambda t, ip: [p for _, p in t.partition(
+                lambda i, m: 'all', axis=axis)]), args, tables
+        if op == 'collapse':
+            return (lambda t, ip: t.collapse(
+                lambda i, m: 'own_' + i, norm=False, axis=axis)), args, tables
     if op == 'filter':
         if r.random() < .5:
             keep = r.sample(ids, r.randint(0, len(ids)))
